@@ -237,7 +237,7 @@ def run(ctx):
     bins, enabled, ill, newly = build_all(ctx)
     ctx.note("build (probes + 8 harness parts): %.0fs" % (time.time() - t0))
     thorough = ctx.tier == "thorough"
-    nshard = {"ADDSUB": 2, "MUL": 4, "DIV": 4, "MISC": 6} if thorough else {"ADDSUB": 1, "MUL": 2, "DIV": 2, "MISC": 3}
+    nshard = {"ADDSUB": 6, "MUL": 12, "DIV": 12, "MISC": 30} if thorough else {"ADDSUB": 1, "MUL": 2, "DIV": 2, "MISC": 3}
     deadline = int(time.time() + max(30, ctx.time_left() - 90))
     jobs = []
     # heaviest parts first
@@ -248,6 +248,8 @@ def run(ctx):
                 args = ["--tier", ctx.tier, "--shard", str(k), str(n), "--deadline", str(deadline)]
                 jobs.append(lambda b=bins[(t, part)], a=args, tg=tag_of(t, part): ctx.run_harness(b, a, tag=tg))
     vlib.parallel(jobs, workers=min(16, vlib.NCPU))
+    # deterministic choice of the reported example per signature, whatever order the shards finished in
+    ctx.viols.sort(key=lambda v: (v["sig"], v["harness"] or "", v["args"]))
     if ctx.stats.get("oracle_disagreements", 0):
         raise vlib.HarnessError("C10: the Annex G rule table and libstdc++'s std::complex disagree on %d premise-matching operand pairs: %s" % (
             ctx.stats["oracle_disagreements"], [n for n in ctx.notes if n.startswith("ORACLE-DISAGREEMENT")][:5]))
@@ -270,7 +272,7 @@ def run(ctx):
         "bit-identity (modulo NaN payload) with the value-closure instantiation and with std::complex for forwarded functions, == decided from the bit patterns, operands/referents after the operation. "
         "evaluations = executions of one instantiation on one operand tuple. distinct_nontrivial = distinct (T, operation, operand form cc/cs/sc, effective ieee flag, operand tuple) combinations - closure kinds NOT counted separately - "
         "that at least one value rule judged and that are non-trivial: for arithmetic both effective operands are not a zero; for ==/!= at least one part compares equal or is NaN; for functions the operand is not a zero; "
-        "for assignment/accessors the written value differs from the old one" % (nv, ", min subnormal, 0.1, -pi, 12345.678, the well-scaled limits 2^+-W and 2^(W+1), the square overflow/underflow thresholds" if thorough else ""))
+        "for assignment/accessors the written value differs from the old one" % (nv, ", +-min subnormal, 0.1, -pi, sqrt 2, 12345.678, 1e-3, 1-eps/2, the well-scaled limits 2^+-W and 2^(W+1), 2^+-(W/2), the square overflow/underflow thresholds, max/2, -max/4, 1.5*2^(emax-2), 4*min, -3*denorm_min" if thorough else ""))
     ctx.assumptions += [
         "__float128 (113-bit) complex arithmetic is the exact reference for finite operands; products of two T values are exact in it",
         "well-scaled := every non-zero part has magnitude in [2^-200, 2^200] (double) / [2^-30, 2^30] (float), so no intermediate of the textbook formulas over- or underflows; outside this band the non-IEEE mode is not judged by value",
